@@ -133,6 +133,19 @@ CHECKS["C13"] = dict(
     level_text="Bounded symbolic execution of the client's accounting (Q / handleModifyRequest / handleModifyResponse / clearPendingOp / isConverged / AwaitConverged) against a ghost model: every id is pending or completed exactly once for every symbolic id/status combination.",
     level_note="Trusted: go/ssa, gosym (sync/atomic, time.Sleep stubs), z3.")
 
+CHECKS["C17"] = dict(
+    runs=[dict(pkg="chk", harness="VfC17_hasResult", reach=["end"],
+               bounds="0-2 results and one wanted result, each with symbolic operation id, status, optional server error, optional details (ADD/DELETE x next-hop-group / next-hop / IPv4 / IPv6 / MPLS key); all four option combinations"),
+          dict(pkg="chk", harness="VfC17_hasResultsCache", reach=["end"], bounds="as hasResult; compared with the specification of the plain checker"),
+          dict(pkg="chk", harness="VfC17_getResponseHasEntries", reach=["end"], bounds="Get response of 0-2 entries (5 kinds, symbolic key and network instance) and one wanted entry built with the fluent API"),
+          dict(pkg="chk", harness="VfC17_errorCounts", reach=["end"], bounds="error nil / ClientErr with 0-2 send and receive errors / other error; wanted count 0-3"),
+          dict(pkg="chk", harness="VfC17_recvStatus", reach=["end"], thorough=dict(skip=True), bounds="ClientErr with 0-1 receive error (plain error or status with one of 3 codes, 2 messages, optional details with 2 reasons) or a non-client error; wanted status likewise; AllowUnimplemented x IgnoreDetails"),
+          dict(pkg="chk", harness="VfC17_recvStatusT", reach=["end"], quick=dict(skip=True), bounds="as recvStatus with 0-2 receive errors, 4 codes, 3 messages, 3 reasons")],
+    assumptions=["cmp.Equal + cmpopts.IgnoreFields + protocmp.Transform are modelled as typed structural equality skipping the ignored fields",
+                 "grpc status values are modelled as {code, message, details}; keys in Get responses are non-zero / non-empty"],
+    level_text="Bounded symbolic execution of the real checkers with a capturing testing.TB: 'fails iff the wanted item is absent' is decided for all symbolic ids/keys/instances/options.",
+    level_note="Trusted: go/ssa, gosym (cmp/protocmp/proto.Clone stubs), z3.")
+
 NOT_APPLICABLE = {
     "C19": "whole compliance-suite runs over in-memory gRPC against wrapped servers in every order: a whole-program execution through gRPC, testing and reflection; no bounded symbolic encoding within reach (DESIGN.md §8)",
 }
